@@ -677,7 +677,8 @@ def gen_rewrites(rng, ck, quick):
     pool.append({'op': 's_model', 'kwargs': {}, 'must': rng.random() < 0.5})
     pool.append({'op': 'ac_model', 'kwargs': {'w0': [rng.randint(1, 9), rng.randint(1, 4)]}, 'no_solve': True})
     pool.append({'op': 'noise_model', 'kwargs': {}, 'no_solve': True})
-    pool.append({'op': 'noise_killed_s_model', 'kwargs': {}})
+    if quick or rng.random() < 0.5:
+        pool.append({'op': 'noise_killed_s_model', 'kwargs': {}})
     pool.append({'op': 'replace_switches', 'kwargs': {'t': rng.randint(0, 5)}})
     # subs: a variant with symbolic values
     syms = {}
@@ -817,7 +818,7 @@ def run(chk, replay=None):
     drv = chk.get_driver()
     rng = chk.rng
     quick = chk.tier == 'quick'
-    ncirc = 45 if quick else 120
+    ncirc = 45 if quick else 96
     seeds = [0, 1] if quick else [0, 1, 2, 3, 4, 5, 6, 7]
     chk.coverage['rule'] = ('each case = (generated netlist, rewrite with its arguments, PYTHONHASHSEED); netlists: random '
                             'connected skeleton of 2-4 nodes whose branches are single elements, series chains (2-4 like '
